@@ -3,7 +3,10 @@ import DsdVerif.Lemmas.PyMakePairTable
 import DsdVerif.Lemmas.PyPtToDb
 import DsdVerif.Lemmas.PyRotateOnce
 import DsdVerif.Lemmas.PyMakeLoopIndex
+import DsdVerif.Lemmas.PySplit
+import DsdVerif.Lemmas.PyRotatePt
 import DsdVerif.Props.C08Loop
+import DsdVerif.Props.C09Split
 import DsdVerif.Props.C06
 import DsdVerif.Props.C07Rot
 
@@ -150,6 +153,64 @@ theorem py_rotate_short_structure_faults :
     py_rotate_complex_once ["a", "b", "+", "c"] ['.'] = .error (.fault "IndexError") ∧
     rotateOnce ["a", "b", "+", "c"] ['.'] = .ok (["c", "+", "a", "b"], ['+', '.']) := by
   constructor <;> decide
+
+/-! ### C09 / C07 on the source-derived generators `split_complex_pt` and `rotate_complex_pt` -/
+
+/-- `list(split_complex_pt(stab, ptab))` as written in the source (recursion depth bounded by `fuel`, the nested `splice`,
+    the `seen` dict, `break`) is the model's `splitPt` on every pair table `make_pair_table` returns: the same parts in the
+    same order, the same error kinds (`RecursionError` for too little fuel included), for every strand table -/
+theorem py_split_complex_pt_eq (fuel : Nat) (stab : List (List String)) (ss : List Char) (brk : Char) (pt : PairTable)
+    (h : makePairTable ss brk = .ok pt) (hs : stab.map List.length = pt.map List.length) :
+    py_split_complex_pt fuel stab pt = splitPt fuel stab pt := PyEq.split_complex_pt_eq fuel stab ss brk pt h hs
+
+/-- … under the invariant that the halves of a splice inherit (`Split.LM`: the table is a non-crossing perfect matching of
+    the brackets of some list of strands), without any hypothesis on the strand table -/
+theorem py_split_complex_pt_eq_lm (fuel : Nat) (stab : List (List String)) (pt : PairTable) (syms : List (List Sym))
+    (h : Split.LM syms pt) : py_split_complex_pt fuel stab pt = splitPt fuel stab pt :=
+  PyEq.split_complex_pt_eq_lm fuel stab pt syms h
+
+/-- … hence on every table the SOURCE's `make_pair_table` returns -/
+theorem py_split_of_py_pair_table (fuel : Nat) (stab : List (List String)) (ss : List Char) (brk : Char) (pt : PairTable)
+    (h : py_make_pair_table ss brk ['.'] = .ok pt) (hs : stab.map List.length = pt.map List.length) :
+    py_split_complex_pt fuel stab pt = splitPt fuel stab pt := by
+  rw [py_make_pair_table_eq] at h
+  exact py_split_complex_pt_eq fuel stab ss brk pt h hs
+
+/-- **splitting yields exactly the connected components, for the source-derived generator** (`C09.split_spec` transferred):
+    with fuel `len(ptab) + 1` the source's `split_complex_pt` returns parts that are sub-complexes of the input on disjoint
+    index sets (content, order, pairs preserved - `C09.PartOf`), the index sets partition the strands, and every part is connected -/
+theorem py_split_spec (ss : List Char) (brk : Char) (ptab : PairTable) (stab : List (List String))
+    (h : py_make_pair_table ss brk ['.'] = .ok ptab) (hs : stab.map List.length = ptab.map List.length) :
+    ∃ (parts : List (List (List String) × PairTable)) (idxs : List (List Nat)),
+      py_split_complex_pt (ptab.length + 1) stab ptab = .ok parts ∧
+      idxs.length = parts.length ∧
+      (∀ (k : Nat) part idx, parts[k]? = some part → idxs[k]? = some idx → C09.PartOf stab ptab part idx ∧ idx ≠ []) ∧
+      (idxs.flatten.Perm (List.range ptab.length)) ∧
+      (∀ part ∈ parts, ∃ lo, makeLoopIndex part.2 false = .ok lo) := by
+  rw [py_split_of_py_pair_table (ptab.length + 1) stab ss brk ptab h hs]
+  rw [py_make_pair_table_eq] at h
+  have hl : stab.length = ptab.length := by
+    have := congrArg List.length hs; simpa using this
+  exact C09.split_spec ss brk ptab stab h hl
+
+set_option synthInstance.maxSize 2048 in
+/-- the invariant is needed: on a table whose entries point outside the table the source raises IndexError (inside
+    `make_loop_index`), which the net-effect model does not have -/
+theorem py_split_malformed_faults :
+    py_split_complex_pt 5 [["a"], ["b"]] [[none], [some (0, 0)]] = .error (.fault "IndexError") ∧
+    splitPt 5 [["a"], ["b"]] [[none], [some (0, 0)]] = .ok [([["a"]], [[none]]), ([["b"]], [[some (0, 0)]])] := by
+  constructor <;> decide
+
+/-- `list(rotate_complex_pt(stab, ptab))` (`turns = None`) as written in the source is the model's `rotationsPt` for every
+    non-empty strand table, given more fuel than strands -/
+theorem py_rotate_complex_pt_eq (fuel : Nat) (stab : List (List String)) (ptab : PairTable)
+    (hs : stab ≠ []) (hf : ptab.length < fuel) :
+    py_rotate_complex_pt fuel stab ptab none = .ok (rotationsPt stab ptab) := PyEq.rotate_complex_pt_eq fuel stab ptab hs hf
+
+set_option synthInstance.maxSize 2048 in
+/-- the hypothesis on the strand table is needed: `stab[-1]` of an empty strand table is an IndexError -/
+theorem py_rotate_empty_stab_faults :
+    py_rotate_complex_pt 5 [] [[none], [none]] (some 1) = .error (.fault "IndexError") := by decide
 
 /-- non-vacuity: a concrete two-strand complex meets the hypotheses of `py_rotate_pairs` -/
 example : C07.Aligned ["a", "+", "b"] ['(', '+', ')'] ∧ ["a", "+", "b"].idxOf? "+" = some 1 ∧
